@@ -18,13 +18,29 @@ struct Prop {
 }
 
 fn table() -> Vec<Prop> {
-    vec![Prop {
+    vec![
+    Prop {
+        id: "C02",
+        run: props::c02::run,
+        replay: props::c02::replay,
+        rule: props::c02::RULE,
+        assumptions: &["the reference recogniser (harness/src/model.rs) transcribes the EBNF of the property; its two formulations are cross-checked on every generated input"],
+    },
+    Prop {
+        id: "C03",
+        run: props::c03::run,
+        replay: props::c03::replay,
+        rule: props::c03::RULE,
+        assumptions: &["the three-zone reference classifier (harness/src/model.rs) reads the property's wording leniently where it leaves room (DESIGN.md §5.1)", "ExtensionsMap::other is not compared"],
+    },
+    Prop {
         id: "C15",
         run: props::c15::run,
         replay: props::c15::replay,
         rule: props::c15::RULE,
         assumptions: &["reference predicates transcribe the UTS #35 EBNF productions quoted in the property"],
-    }]
+    },
+    ]
 }
 
 fn main() {
